@@ -39,6 +39,19 @@ class Prior(Distribution, Module, ABC):
         if isinstance(self, TransformedDistribution):
             _load_transformed_to_base_dist(self)
 
+    def _load_from_state_dict(self, *args, **kwargs):
+        # Also when the state is loaded through a parent module (which does not call this prior's load_state_dict)
+        super()._load_from_state_dict(*args, **kwargs)
+        if isinstance(self, TransformedDistribution):
+            _load_transformed_to_base_dist(self)
+
+    def _apply(self, fn, *args, **kwargs):
+        # .to() / .double() / ... replace the buffers: point the base distribution at the new tensors
+        res = super()._apply(fn, *args, **kwargs)
+        if isinstance(self, TransformedDistribution):
+            _load_transformed_to_base_dist(self)
+        return res
+
     def __setattr__(self, name: str, value: Any) -> None:
         if hasattr(self, name) and "_transformed_" in name:
             base_attr_name = name.replace("_transformed_", "")
